@@ -173,7 +173,7 @@ H_INSTALL_F = {"fn": "vh_install_faults", "what": "installSnapshot with every sn
                "covers": ["install.success", "install.failed", "install.stale-term"]}
 H_CAND = {"fn": "vh_candidate", "what": "runCandidate + preElectSelf/electSelf to the first park with arbitrary per-peer (term, granted, error) answers; pre-vote on/off; transfer flag; stable faults for N=1",
           "bounds_quick": "N<=2 servers of symbolic suffrage, self in or out of the configuration", "bounds_thorough": "N<=3", "allow": ["PANIC"],
-          "covers": ["candidate.won", "candidate.prevote-lost", "candidate.prevote-higher-term"], "thorough": {"max_paths": 400000, "max_seconds": 3000}}
+          "covers": ["candidate.won", "candidate.prevote-lost", "candidate.prevote-higher-term"], "thorough": {"max_paths": 900000, "max_seconds": 7000}}
 H_SETUP = {"fn": "vh_setup_leader", "what": "setupLeaderState on an arbitrary server", "bounds": "N<=3", "covers": ["setup.end"]}
 
 D3_NOTE = "installSnapshot obligations are split by the known-finding cause D3 (follower log lacks the snapshot's last entry, or monotonic store wiped with the cached last-log position kept)"
